@@ -979,6 +979,30 @@ def gen_world_shape(repo):
     items.append(('BOUNDROUTE_BIND', skeleton_of(find_def(br.body, 'bind'))))
     return shape_file('clastic/application.py, clastic/route.py', items)
 
+def gen_more_shapes(repo):
+    """render/simple.py (Model/Render.v), the WSGI wrapper stack of application.py (Model/Wsgi.v) and the counting
+    side of middleware/stats.py (Model/Stats.v): hand-transcribed functions, pinned statement by statement"""
+    simple = parse(repo, 'clastic/render/simple.py')
+    app = parse(repo, 'clastic/application.py')
+    stats = parse(repo, 'clastic/middleware/stats.py')
+    items = []
+    for cls, fns in (('ClasticJSONEncoder', ['default']), ('JSONRender', ['__call__']), ('JSONPRender', ['__call__']),
+                     ('BasicRender', ['render_response', '_serialize_to_resp', '_guess_json'])):
+        c = find_class(simple, cls)
+        for f in fns:
+            items.append(('%s_%s' % (cls.upper(), f.strip('_').upper()), skeleton_of(find_def(c.body, f))))
+    items.append(('GET_ALL_MIDDLEWARES', skeleton_of(module_def(app, '_get_all_middlewares'))))
+    items.append(('SAFE_WRAP_WSGI', skeleton_of(module_def(app, '_safe_wrap_wsgi'))))
+    sm = find_class(stats, 'StatsMiddleware')
+    for f in ['__init__', 'reset', 'request']:
+        items.append(('STATSMIDDLEWARE_' + f.strip('_').upper(), skeleton_of(find_def(sm.body, f))))
+    rs = find_class(stats, 'RouteStatReservoir')
+    for f in ['__init__', 'add']:
+        items.append(('ROUTESTATRESERVOIR_' + f.strip('_').upper(), skeleton_of(find_def(rs.body, f))))
+    for f in ['_get_route_stats', 'get_stats_dict', 'get_and_reset_stats_dict']:
+        items.append((f.strip('_').upper(), skeleton_of(module_def(stats, f))))
+    return shape_file('clastic/render/simple.py, clastic/application.py, clastic/middleware/stats.py', items)
+
 
 GENERATORS = {
     'Footprint.v': gen_footprint,
@@ -996,6 +1020,7 @@ GENERATORS = {
     'DispatchShape.v': gen_dispatch_shape,
     'ChainShape.v': gen_chain_shape,
     'WorldShape.v': gen_world_shape,
+    'MoreShapes.v': gen_more_shapes,
 }
 
 
